@@ -1,13 +1,20 @@
+mod drive;
+mod families;
 mod gosem;
+mod irck;
+mod oracle;
+mod ug;
 
+use drive::Tier;
 use std::path::Path;
 
-fn conformance() -> i32 {
+fn conformance(verbose: bool) -> i32 {
     let root = Path::new("/repo/crates/compiler/src/tests/pipeline");
     let mut dirs: Vec<_> = std::fs::read_dir(root).unwrap().map(|e| e.unwrap().path()).collect();
     dirs.sort();
     let mut bad = 0;
     let mut ok = 0;
+    let mut skipped = 0;
     for d in dirs {
         let go = d.join("main.gom.go");
         if !go.exists() {
@@ -15,17 +22,20 @@ fn conformance() -> i32 {
         }
         let text = std::fs::read_to_string(&go).unwrap();
         let name = d.file_name().unwrap().to_string_lossy().to_string();
+        let want = std::fs::read(d.join("main.gom.out")).unwrap_or_default();
         match gosem::analyse(&text) {
             gosem::GoVerdict::Ok(p) => {
                 let r = gosem::run::run_main(p, 50_000_000);
-                let outp = d.join("main.gom.out");
-                let want = std::fs::read(&outp).unwrap_or_default();
                 let mut got = r.stdout.clone();
                 if r.end != gosem::run::End::Ok {
                     got.extend_from_slice(&r.stderr);
                 }
-                let same = if r.end == gosem::run::End::Ok { got == want } else { want.starts_with(&got) };
-                if same && !matches!(r.end, gosem::run::End::Unsupported(_) | gosem::run::End::Fuel) {
+                let same = if r.end == gosem::run::End::Ok { got == want } else { want.starts_with(&got) && String::from_utf8_lossy(&want).contains("exit status 2") };
+                let no_out = !d.join("main.gom.out").exists();
+                if matches!(r.end, gosem::run::End::Unsupported(_)) {
+                    skipped += 1;
+                    if verbose { println!("{}: skipped ({:?})", name, r.end); }
+                } else if (same || no_out) && r.end != gosem::run::End::Fuel {
                     ok += 1;
                 } else {
                     bad += 1;
@@ -33,22 +43,94 @@ fn conformance() -> i32 {
                 }
             }
             gosem::GoVerdict::Rejected(errs) => {
-                bad += 1;
-                println!("{}: REJECTED {:?}", name, &errs[..errs.len().min(3)]);
+                // a golden whose recorded output is a Go compile error at the same line is conformance too
+                let w = String::from_utf8_lossy(&want);
+                let e = &errs[0];
+                if w.contains(&format!("./main.go:{}:", e.line)) {
+                    ok += 1;
+                    if verbose { println!("{}: rejected as recorded ({} line {})", name, e.rule, e.line); }
+                } else {
+                    bad += 1;
+                    println!("{}: REJECTED {:?}", name, &errs[..errs.len().min(3)]);
+                }
             }
             gosem::GoVerdict::Unsupported(m) => {
-                println!("{}: unsupported {}", name, m);
+                skipped += 1;
+                if verbose { println!("{}: unsupported {}", name, m); }
             }
         }
     }
-    println!("ok={} bad={}", ok, bad);
-    if bad > 0 { 2 } else { 0 }
+    println!("conformance: ok={} bad={} skipped={}", ok, bad, skipped);
+    if bad > 0 || ok < 70 { 2 } else { 0 }
 }
 
 fn main() {
     let args: Vec<String> = std::env::args().collect();
     match args.get(1).map(|s| s.as_str()) {
-        Some("conformance") => std::process::exit(conformance()),
-        _ => eprintln!("usage"),
+        Some("conformance") => std::process::exit(conformance(true)),
+        Some("worker") => {
+            // worker <family> <tier> <w> <k> <from> <skip|->
+            let fam = families::by_name(&args[2]).expect("family");
+            let tier = Tier::parse(&args[3]);
+            let w: usize = args[4].parse().unwrap();
+            let k: usize = args[5].parse().unwrap();
+            let from: usize = args[6].parse().unwrap();
+            let skip: Vec<usize> = if args[7] == "-" { vec![] } else { args[7].split(',').filter_map(|s| s.parse().ok()).collect() };
+            drive::worker_main(&*fam, tier, w, k, from, &skip);
+        }
+        Some("check") => {
+            // check <Cxx> <tier> <verif_root>
+            let prop: &'static str = Box::leak(args[2].clone().into_boxed_str());
+            let tier = Tier::parse(args.get(3).map(|s| s.as_str()).unwrap_or("quick"));
+            let root = args.get(4).cloned().unwrap_or("/verif".into());
+            let seed: i64 = std::env::var("VERIF_SEED").ok().and_then(|s| s.parse().ok()).unwrap_or(0);
+            if conformance(false) != 0 {
+                eprintln!("machinery: gosem conformance against the recorded goldens failed");
+                std::process::exit(2);
+            }
+            let fams = families::for_property(prop);
+            if fams.is_empty() {
+                eprintln!("machinery: no family serves {}", prop);
+                std::process::exit(2);
+            }
+            let refs: Vec<&dyn drive::Family> = fams.iter().map(|f| &**f).collect();
+            std::process::exit(drive::run_check(prop, &refs, tier, &root, seed));
+        }
+        Some("show") => {
+            // show <family> <index>: print the case and its source
+            let fam = families::by_name(&args[2]).expect("family");
+            let idx: usize = args[3].parse().unwrap();
+            let tier = Tier::parse(args.get(4).map(|s| s.as_str()).unwrap_or("thorough"));
+            let case = fam.cases(tier).nth(idx).expect("index");
+            let mut ctx = drive::Ctx { scratch: oracle::Scratch::new("show"), tier };
+            let rep = fam.run(&case, &mut ctx);
+            println!("case: {}", case);
+            println!("tags: {:?}", rep.tags);
+            for f in rep.findings {
+                println!("FINDING {} {} {}\n  {}\n{}", f.property, f.class, f.site, f.detail, serde_json::to_string_pretty(&f.replay).unwrap());
+            }
+            if let Some(s) = rep.sample { println!("sample: {}", serde_json::to_string_pretty(&s).unwrap()); }
+        }
+        Some("try") => {
+            let path = std::path::PathBuf::from(&args[2]);
+            let src = std::fs::read_to_string(&path).unwrap();
+            match oracle::compile_at(&path, &src) {
+                oracle::CompileOutcome::Ok(c) => {
+                    let text = oracle::go_text(&c).unwrap();
+                    if args.iter().any(|a| a == "--go") { println!("{}", text); }
+                    let r = oracle::analyse_and_run(text, 50_000_000);
+                    match &r.verdict {
+                        gosem::GoVerdict::Ok(_) => {
+                            let run = r.run.unwrap();
+                            println!("--- stdout\n{}--- stderr\n{}--- end {:?} steps {}", String::from_utf8_lossy(&run.stdout), String::from_utf8_lossy(&run.stderr), run.end, run.steps);
+                        }
+                        v => println!("GO VERDICT: {:?}", v),
+                    }
+                }
+                oracle::CompileOutcome::Err(e) => println!("COMPILE ERROR: {:?}", e),
+                oracle::CompileOutcome::Panic(m) => println!("COMPILER PANIC: {}", m),
+            }
+        }
+        _ => eprintln!("usage: gomlmc conformance | check <Cxx> <tier> [root] | worker … | show <family> <idx> | try <file.gom> [--go]"),
     }
 }
